@@ -129,7 +129,7 @@ def rotvec_norms(per_dec):
     thr = np.sqrt(1e-6)
     for k in (0, 1, 2, 8, 64):
         n += [thr * (1 + k * EPS), thr * (1 - k * EPS)]
-    n += [np.pi, np.pi * (1 - 1e-9), 3.0, 0.0]
+    n += [np.pi, 3.0, 0.0] + [np.pi * (1 - 10.0 ** -k) for k in range(2, 16)]   # approach to pi
     return sorted(set(n))
 
 
@@ -144,7 +144,14 @@ def run_rotvec(case):
     out = np.empty((3, 3))
     for n in norms:
         rv = n * d
-        ni.mat_from_rotvec(rv, out)
+        try:
+            # compiled code leaves no Python frame in the traceback: convert here
+            ni.mat_from_rotvec(rv, out)
+        except Exception as e:  # noqa
+            viol.append(dict(sig='c17-rotvec-exception:%s' % type(e).__name__,
+                             msg='mat_from_rotvec(|rv|=%.17g, dir %s) raised %s: %s'
+                                 % (n, case['dir'], type(e).__name__, e)))
+            continue
         ref = rot.expm_rodrigues_ld(rv)
         e = np.abs(out - ref).max()
         max_e = max(max_e, e / EPS)
